@@ -30,11 +30,13 @@ type Solver struct {
 	out     *bufio.Reader
 	defined map[int]bool
 	defs    [][]int // term IDs defined at each push level (index = level)
+	litDone map[int]bool
 	ctx     *Ctx
 	seq     int
 
 	stack     []*Term // asserted prefix, one push level per literal
 
+	CoreFail  int
 	Queries   int
 	NSat      int
 	NUnsat    int
@@ -43,6 +45,8 @@ type Solver struct {
 	SolveTime time.Duration
 	TimeoutMs int
 	Log       io.Writer // optional transcript
+	Cores     bool      // name prefix assertions and fetch unsat cores
+	LastCore  []*Term   // literals of the stack in the last unsat core (with Cores)
 }
 
 // SolverCommand returns the argv for a named back end.
@@ -57,7 +61,11 @@ func SolverCommand(name string, timeoutMs int) []string {
 }
 
 func NewSolver(name string, ctx *Ctx, timeoutMs int) (*Solver, error) {
-	s := &Solver{Name: name, args: SolverCommand(name, timeoutMs), ctx: ctx, TimeoutMs: timeoutMs}
+	return NewSolverOpt(name, ctx, timeoutMs, false)
+}
+
+func NewSolverOpt(name string, ctx *Ctx, timeoutMs int, cores bool) (*Solver, error) {
+	s := &Solver{Name: name, args: SolverCommand(name, timeoutMs), ctx: ctx, TimeoutMs: timeoutMs, Cores: cores}
 	if err := s.start(); err != nil {
 		return nil, err
 	}
@@ -82,8 +90,13 @@ func (s *Solver) start() error {
 	s.out = bufio.NewReaderSize(out, 1<<16)
 	s.defined = map[int]bool{}
 	s.defs = [][]int{nil}
+	s.litDone = nil
 	s.stack = nil
-	s.send("(set-option :print-success false)\n(set-option :produce-models true)\n(set-logic ALL)\n")
+	s.send("(set-option :print-success false)\n(set-option :produce-models true)\n")
+	if s.Cores {
+		s.send("(set-option :produce-unsat-cores true)\n")
+	}
+	s.send("(set-logic ALL)\n")
 	return nil
 }
 
@@ -334,7 +347,11 @@ func (s *Solver) SetPrefix(lits []*Term) {
 	for _, l := range lits[k:] {
 		// definitions made here live at the current level and die with it
 		s.define(l, &sb, nil, map[int]bool{})
-		fmt.Fprintf(&sb, "(push 1)\n(assert %s)\n", l.Ref())
+		if s.Cores {
+			fmt.Fprintf(&sb, "(push 1)\n(assert (! %s :named a%d))\n", l.Ref(), len(s.stack))
+		} else {
+			fmt.Fprintf(&sb, "(push 1)\n(assert %s)\n", l.Ref())
+		}
 		s.stack = append(s.stack, l)
 		s.defs = append(s.defs, nil)
 	}
@@ -382,6 +399,26 @@ func (s *Solver) CheckWith(wantModel bool, extra ...*Term) (Result, Model) {
 	if bad {
 		res = Unknown
 	}
+	s.LastCore = nil
+	if res == Unsat && s.Cores {
+		out := strings.Join(s.roundtrip("(get-unsat-core)\n"), " ")
+		out = strings.Trim(strings.TrimSpace(out), "()")
+		ok := true
+		for _, f := range strings.Fields(out) {
+			var k int
+			if _, err := fmt.Sscanf(f, "a%d", &k); err != nil || k < 0 || k >= len(s.stack) {
+				ok = false
+				break
+			}
+			s.LastCore = append(s.LastCore, s.stack[k])
+		}
+		if !ok {
+			s.LastCore = nil
+			s.CoreFail++
+		} else if s.LastCore == nil {
+			s.LastCore = []*Term{}
+		}
+	}
 	var model Model
 	if res == Sat && wantModel {
 		model = Model{}
@@ -428,4 +465,116 @@ func collectVars(t *Term, vars map[string]*Term, seen map[int]bool) {
 	for _, a := range t.Args {
 		collectVars(a, vars, seen)
 	}
+}
+
+
+// ---- assumption-literal mode: everything lives at level 0, each query is a
+// check-sat-assuming over indicator constants (no push/pop). ----
+
+func (s *Solver) ensureLit(l *Term, sb *strings.Builder) string {
+	name := fmt.Sprintf("L%d", l.ID)
+	if s.litDone == nil {
+		s.litDone = map[int]bool{}
+	}
+	if !s.litDone[l.ID] {
+		s.litDone[l.ID] = true
+		s.define(l, sb, nil, map[int]bool{})
+		fmt.Fprintf(sb, "(declare-const %s Bool)\n(assert (=> %s %s))\n", name, name, l.Ref())
+	}
+	return name
+}
+
+// CheckAssuming decides the conjunction of lits. With an unsat answer (and
+// Cores) LastCore holds the subset of lits reported by the solver.
+func (s *Solver) CheckAssuming(lits []*Term, wantModel bool) (Result, Model) {
+	start := time.Now()
+	defer func() { s.SolveTime += time.Since(start) }()
+	s.Queries++
+	if len(s.stack) != 0 {
+		panic("CheckAssuming with a non-empty assertion stack")
+	}
+	var sb strings.Builder
+	names := make([]string, 0, len(lits))
+	for _, l := range lits {
+		if l.IsTrue() {
+			continue
+		}
+		names = append(names, s.ensureLit(l, &sb))
+	}
+	sb.WriteString("(check-sat-assuming (")
+	sb.WriteString(strings.Join(names, " "))
+	sb.WriteString("))\n")
+	lines := s.roundtrip(sb.String())
+	res := Unknown
+	bad := false
+	for _, l := range lines {
+		switch {
+		case strings.HasPrefix(l, "(error") || strings.Contains(l, "error"):
+			bad = true
+			s.Errors = append(s.Errors, l)
+		case l == "sat":
+			res = Sat
+		case l == "unsat":
+			res = Unsat
+		}
+	}
+	if bad {
+		res = Unknown
+	}
+	s.LastCore = nil
+	if res == Unsat && s.Cores {
+		out := strings.Join(s.roundtrip("(get-unsat-core)\n"), " ")
+		out = strings.Trim(strings.TrimSpace(out), "()")
+		byName := map[string]*Term{}
+		for _, l := range lits {
+			byName[fmt.Sprintf("L%d", l.ID)] = l
+		}
+		ok := true
+		core := []*Term{}
+		for _, f := range strings.Fields(out) {
+			t, in := byName[f]
+			if !in {
+				ok = false
+				break
+			}
+			core = append(core, t)
+		}
+		if ok {
+			s.LastCore = core
+		} else {
+			s.CoreFail++
+		}
+	}
+	var model Model
+	if res == Sat && wantModel {
+		model = Model{}
+		vars := map[string]*Term{}
+		seen := map[int]bool{}
+		for _, l := range lits {
+			collectVars(l, vars, seen)
+		}
+		if len(vars) > 0 {
+			var q strings.Builder
+			q.WriteString("(get-value (")
+			for n := range vars {
+				q.WriteString(smtName(n))
+				q.WriteByte(' ')
+			}
+			q.WriteString("))\n")
+			out := strings.Join(s.roundtrip(q.String()), " ")
+			if err := parseValues(out, vars, model); err != nil {
+				s.Errors = append(s.Errors, "get-value: "+err.Error()+" in "+out)
+				res = Unknown
+			}
+		}
+	}
+	switch res {
+	case Sat:
+		s.NSat++
+	case Unsat:
+		s.NUnsat++
+	default:
+		s.NUnknown++
+	}
+	return res, model
 }
